@@ -20,7 +20,7 @@ import teneva
 from . import registry as RG
 from . import tlc
 
-SEEDED = ['anova', 'anova2', 'core_qr_rand', 'cross_act', 'sample', 'sample_lhs', 'sample_rand', 'sample_rand_poi',
+SEEDED = ['anova', 'anova2', 'core_qr_rand', 'cross_act', 'cross_act_dr2', 'sample', 'sample_lhs', 'sample_rand', 'sample_rand_poi',
           'sample_square', 'sample_square_nu', 'sample_square_retry', 'sample_tt', 'sample_func', 'rand', 'rand_norm', 'rand_stab']
 
 
